@@ -45,7 +45,7 @@ let cmd_hist (x : sx) : sx =
   match x with
   | L [meth; steps] ->
       let meth = z_of_sx meth in
-      let sp = c15_sp_of meth and writes = c15_writes_of meth and reads = c15_reads_of meth in
+      let sp = c15_sp_of meth and writes = c15_writes_of meth and reads = c15_reads_of meth and copies = c15_copies_of meth in
       let step_of = function
         | L [var; per; proj; eng; cache; ovr] ->
             ((match var with A "N" -> None | v -> Some (z_of_sx v)),
@@ -56,7 +56,7 @@ let cmd_hist (x : sx) : sx =
       let st = ref c15_init and objs = ref [] and outs = ref [] and ids = ref [] in
       List.iter (fun (var, a) ->
         let ((built, tables), _) = c15_da_call sp reads !st a in
-        let ((st', objs'), id) = c15_step sp writes (!st, !objs) (var, a) in
+        let ((st', objs'), id) = c15_step sp writes copies (!st, !objs) (var, a) in
         st := st'; objs := objs'; ids := id :: !ids;
         outs := L [sx_of_list sx_of_z built; sx_of_nat id;
                    (match var with None -> A "N" | Some _ -> sx_of_list (sx_of_list sx_of_z) tables)] :: !outs) steps;
